@@ -76,7 +76,7 @@ def run_sched_property(pid, tier, seed, level="other", level_note=None, extra_ca
         go, mo = {}, {}
         SH = 200
         for s in range(0, len(cases), SH):
-            g1, m1 = schedcheck.run_cases(vh, cases[s:s + SH], tmp, tag="sch%d" % s)
+            g1, m1 = schedcheck.run_cases(vh, cases[s:s + SH], tmp, tag="sch%d" % s, ci=(pid in ("C03", "C06", "C08")))
             go.update(g1)
             mo.update(m1)
         mismatches, mon_viol = [], []
@@ -96,6 +96,9 @@ def run_sched_property(pid, tier, seed, level="other", level_note=None, extra_ca
             if v:
                 mon_viol.append((key, v))
         viol_count = 0
+        ci = dict(schedcheck.CI_STATS)
+        if ci["gi_failures"] or ci["pc_failures"]:
+            problems = problems + ["the concurrent invariant CI (GI + program-counter consistency) fails on a state of the model reached by an executed schedule: %s" % ci.get("first")]
         proof_broken = bool(problems)
         if mon_viol:
             key, v = mon_viol[0]
@@ -128,6 +131,7 @@ def run_sched_property(pid, tier, seed, level="other", level_note=None, extra_ca
             traces_validated_against_impl=len(go) - len(mismatches),
             correspondence_mismatches=len(mismatches), monitor_violations=len(mon_viol),
             exhaustively_enumerated_programs=len(corpus), enumerations_truncated=sum(1 for r in go.values() if r.get("enum_truncated")),
+            model_invariant_CI=ci,
             deadlocks_seen=sum(1 for r in go.values() if r["deadlock"]), truncated_runs=sum(1 for r in go.values() if r["truncated"]),
             samples=[dict(type=sample_case["type"], order=sample_case["order"], init=sample_case["init"][:10], progs=sample_case["progs"],
                           schedule=schedcheck.executed_schedule(go[sample_key])[:60])],
